@@ -17,6 +17,9 @@ RULE = ('histories of 5-30 operations over p/0 p/1 p/2 q/1 q/2 r/0: asserta/asse
 ASSUMPTIONS = ['the ordered-list model is the fact store of reference interpreters A and B (independent implementations that must agree)',
                'no modification while an enumeration is suspended (that is C14)',
                'non-callable arguments (unbound, integer) to assert/retract are type errors: not generated']
+RULE_ADDED = (' Added after the rounds of independently written changes (DESIGN.md 12.2): ' +
+              'predicates of 16-130 facts; the same functor name with several arities inside stored facts; atoms made at use / held across clear() / made by another engine (also for the predicate name); a few non-ground facts; every fifth script loaded through load_script_from_file.')
+RULE = RULE + RULE_ADDED
 
 KEYS = [('p', 0), ('p', 1), ('p', 2), ('q', 1), ('q', 2), ('r', 0)]
 CONST = [A('a'), A('b'), A('c'), I(1), I(2), C('f', A('a')), C('f', A('a'), A('b')), C('f', A('a'), A('b'), I(1)), C('g', C('f', A('a'))), C('g', C('f', A('a'), A('b')))]
